@@ -26,6 +26,7 @@ import (
 
 type Loaded struct {
 	Root           string // snapshot root
+	genNotes       []string // messages the lemma generator could not cover
 	Fset           *token.FileSet
 	Pkgs           []*packages.Package
 	Prog           *ssa.Program
@@ -45,6 +46,7 @@ type Loaded struct {
 }
 
 type LemmaInfo struct {
+	Tier string // "thorough": run in the thorough tier only
 	Name  string
 	Props []string
 	Fn    *ssa.Function
@@ -776,6 +778,14 @@ func loadProgram(cfg LoadConfig) (*Loaded, error) {
 		os.WriteFile(dst, data, 0o644)
 		return nil
 	})
+	// generated lemmas: the round trips of the NAS message codec, from the type declarations of this copy
+	if contains(cfg.Patterns, "free5gclib/nas/nasMessage") {
+		skipped, err := genNasLemmas(root, filepath.Join(root, "src/free5gclib/nas/nasMessage/zz_verif_lemma_generated_c08.go"))
+		if err != nil {
+			return nil, fmt.Errorf("nasgen: %v", err)
+		}
+		p.genNotes = skipped
+	}
 	pcfg := &packages.Config{
 		Mode: packages.NeedName | packages.NeedFiles | packages.NeedCompiledGoFiles | packages.NeedImports | packages.NeedDeps |
 			packages.NeedTypes | packages.NeedSyntax | packages.NeedTypesInfo | packages.NeedTypesSizes | packages.NeedModule,
@@ -911,6 +921,9 @@ func (p *Loaded) bindSpecs() {
 								li.SplitParam = fs[0]
 								fmt.Sscanf(fs[1], "%d..%d", &li.SplitLo, &li.SplitHi)
 							}
+						}
+						if strings.HasPrefix(t, "tier:") {
+							li.Tier = strings.TrimSpace(strings.TrimPrefix(t, "tier:"))
 						}
 						if strings.HasPrefix(t, "mode:") && strings.TrimSpace(strings.TrimPrefix(t, "mode:")) == "driver" {
 							li.Driver = true
